@@ -373,7 +373,14 @@ class Check:
             self.cov["samples"].append(s)
 
     def violation(self, what, replay_content=None, replay_name=None):
-        """Record a violation; replay_content is saved under /verif/replays."""
+        """Record a violation; replay_content is saved under /verif/replays.  A violation that matches a
+        listed known finding (every 'match' substring occurs in its description) is reported as
+        KNOWN-FINDING instead; anything else of the same property is still a violation."""
+        for k in known_for(self.pid):
+            if all(m in what for m in k.get("match", ["\0never"])):
+                if not any(fid == k["id"] for fid, _ in self.known_hits):
+                    self.known(k["id"], k["what"])
+                return
         name = replay_name or f"{self.pid}-{self.tier}-{len(self.violations)}.txt"
         path = os.path.join(ROOT, "replays", name)
         with open(path, "w") as f:
